@@ -132,3 +132,12 @@ Example chain_example :
 Proof.
   apply (reach_trans _ _ 2 1 0); apply reach_step; vm_compute; tauto.
 Qed.
+
+(* only fields that a declaration reaching this rand set names (as after-field of the set, or as one of its before-fields) get a
+   group: the other random fields of the set are left to the solver in the ordered branch *)
+Lemma rand_order_only_named d fields gs x :
+  rand_order d fields = Some gs -> In x (concat gs) -> In x (items (filter (fun p => mem (fst p) fields) d)).
+Proof.
+  intros H Hx. apply rand_order_inv in H. destruct H as [ls [L ->]].
+  apply restrict_In in Hx. destruct Hx as [_ Hx]. eapply levels_sub; eauto.
+Qed.
